@@ -3,10 +3,10 @@
 import sys, os, json, shutil, re
 ID, K = sys.argv[1], sys.argv[2]
 caught = sys.argv[3] if len(sys.argv) > 3 else ''
-ROUND2 = len(sys.argv) > 4 and sys.argv[4] == 'round2'
-src = f'/tmp/seed2_{ID}_out' if ROUND2 else f'/tmp/seed_{ID}_out'
-dst = f'/verif/seeded/{ID}-{int(K)+2}' if ROUND2 else f'/verif/seeded/{ID}-{K}'
-log = open(f'/root/scratch/seedverify/{ID}_r2_{K}.log' if ROUND2 else
+RND = {'round2': 2, 'round3': 3}.get(sys.argv[4] if len(sys.argv) > 4 else '', 1)
+src = f'/tmp/seed{RND}_{ID}_out' if RND > 1 else f'/tmp/seed_{ID}_out'
+dst = f'/verif/seeded/{ID}-{int(K)+2*(RND-1)}'
+log = open(f'/root/scratch/seedverify/{ID}_r{RND}_{K}.log' if RND > 1 else
            f'/root/scratch/seedverify/{ID}_{K}.log').read()
 def g(pat):
     m = re.search(pat, log); return m.group(1) if m else None
